@@ -87,14 +87,16 @@ subroutine k(n, a, b, s)
   real, intent(inout) :: s
   integer :: i, cnt
   real :: acc, loc(n)
+{decl}
 {body}
 contains
 {members}
 end subroutine k
 """
 
-    def e(name, body, members):
-        out.append(Case(f'extract/{name}', EXT.format(body=body, members=members), 'k', S, extract, 'extract-internal'))
+    def e(name, body, members, decl=''):
+        out.append(Case(f'extract/{name}', EXT.format(body=body, members=members, decl=decl), 'k', S, extract,
+                        'extract-internal'))
     e('host-scalars', '  acc = 0.\n  cnt = 0\n  do i=1,n\n    call bump(a(i))\n  end do\n  s = acc + cnt',
       '  subroutine bump(v)\n    real, intent(inout) :: v\n    v = v + s\n    acc = acc + v\n    cnt = cnt + 1\n  end subroutine bump')
     e('host-arrays-and-size', '  loc(:) = b(:)\n  call fill(2)\n  s = loc(1)',
@@ -105,4 +107,17 @@ end subroutine k
       '  subroutine outer1(v)\n    real, intent(inout) :: v\n    call inner1(v)\n    v = v + acc\n  end subroutine outer1\n  subroutine inner1(v)\n    real, intent(inout) :: v\n    v = v*2.0 + b(1)\n    acc = acc + 1.0\n  end subroutine inner1')
     e('shadowing-local', '  acc = 2.0\n  call sh(a(2))\n  s = acc',
       '  subroutine sh(v)\n    real, intent(inout) :: v\n    real :: acc\n    acc = 10.0\n    v = v + acc + s\n  end subroutine sh')
+    # attributes of host-associated variables that decide what a subscript addresses must survive the move to a dummy
+    e('host-allocatable-lower-bound-0', '  allocate(ph(0:n))\n  ph(:) = 0.5\n  call fill()\n  s = ph(0) + 2.0*ph(n)\n  a(1) = ph(1)\n  deallocate(ph)',
+      '  subroutine fill()\n    integer :: j\n    do j=1,n\n      ph(j) = b(j)*real(j)\n    end do\n  end subroutine fill',
+      decl='  real, allocatable :: ph(:)')
+    e('host-allocatable-lower-bound-2-2d', '  allocate(pg(2:n+1, -1:0))\n  pg(:, :) = s\n  call fill2(2)\n  s = pg(2, -1) - pg(n+1, 0)\n  a(2) = pg(3, 0)\n  deallocate(pg)',
+      '  subroutine fill2(k0)\n    integer, intent(in) :: k0\n    integer :: j\n    do j=k0,n\n      pg(j, 0) = b(j)\n      pg(j+1, -1) = a(j) + pg(j, 0)\n    end do\n  end subroutine fill2',
+      decl='  real, allocatable :: pg(:, :)')
+    e('host-explicit-lower-bound', '  hl(:) = 1.5\n  call lev()\n  s = hl(0) + hl(n)\n  a(1) = hl(1)',
+      '  subroutine lev()\n    integer :: j\n    do j=1,n\n      hl(j) = hl(j-1) + b(j)\n    end do\n  end subroutine lev',
+      decl='  real :: hl(0:n)')
+    e('host-allocatable-allocated-inside', '  call mk(n)\n  s = pw(0) + pw(n-1)\n  a(1) = pw(1)',
+      '  subroutine mk(m)\n    integer, intent(in) :: m\n    integer :: j\n    allocate(pw(0:m-1))\n    do j=0,m-1\n      pw(j) = b(j+1) + s\n    end do\n  end subroutine mk',
+      decl='  real, allocatable :: pw(:)')
     return out
